@@ -60,6 +60,18 @@ theorem shrink_dec (v : Variant) (hv : FloorOk v) (m : Nat) (h2 : 2 ≤ m) (h : 
     have := hv f hf
     simp only []
     rw [if_neg (by omega)]
+/-- an answer with at least one record byte is never the "empty completed answer" -/
+theorem emptyAnswer_of_len (v : Variant) (data : List Nat) (h : 1 ≤ data.length) :
+    emptyAnswer v data = false := by
+  cases data with
+  | nil => simp at h
+  | cons _ _ => simp [emptyAnswer]
+
+theorem emptyAnswer_nil (v : Variant) : emptyAnswer v [] = v.emptyStop := by simp [emptyAnswer]
+
+theorem emptyAnswer_off {v : Variant} (h : v.emptyStop = false) (data : List Nat) :
+    emptyAnswer v data = false := by simp [emptyAnswer, h]
+
 theorem std_ccShrink : stdCfg.ccShrink = 202 := rfl
 theorem std_ccCancel : stdCfg.ccCancel = 197 := rfl
 theorem std_recLen : stdCfg.recLen = 16 := rfl
@@ -241,7 +253,7 @@ theorem entryLoop_exact (d : SelDev) (r rid : Nat) (e : List Nat) (next : Nat)
       simp only [if_true, htick]
       by_cases hwh : d.whole = true
       · simp only [hwh, if_true, List.drop_zero, decodeGet_ok, hnx]
-        simp [hlen, selEntry_ok e next hlen hty]
+        simp [hlen, selEntry_ok e next hlen hty, emptyAnswer_of_len v e (by omega)]
       · simp only [hwh, Bool.false_eq_true, if_false, ccCantReturn, decodeGet_cc 202 (by decide)]
         simp only [if_true, shrink_entire]
         exact ih ⟨d, w.trace ++ [⟨getReq r rid 0 255, [0xCA]⟩]⟩ 16 [] rfl (by simp) (by simp)
@@ -282,7 +294,10 @@ theorem entryLoop_exact (d : SelDev) (r rid : Nat) (e : List Nat) (next : Nat)
           rw [List.length_take, Nat.min_eq_left (by omega), take_take_drop]
         have hnl : (acc ++ (e.drop acc.length).take len).length = acc.length + len := by
           rw [hnew, List.length_take]; omega
-        simp only [show (0 : Nat) = 202 ↔ False by decide, if_false, ne_eq, not_true_eq_false, hnl]
+        have hE : emptyAnswer v ((e.drop acc.length).take len) = false :=
+          emptyAnswer_of_len v _ (by simp only [List.length_take, List.length_drop]; omega)
+        simp only [show (0 : Nat) = 202 ↔ False by decide, if_false, ne_eq, not_true_eq_false, hnl, hE,
+          Bool.false_eq_true]
         by_cases hdone : acc.length + len ≥ 16
         · have h16 : acc.length + len = 16 := by omega
           simp only [hnew, h16, ge_iff_le, Nat.le_refl, if_true]
@@ -696,7 +711,7 @@ theorem entryLoop_frame (r rid : Nat) (hr1 : 1 ≤ r) (hr : r < 65536) (hrid : r
           by_cases hwh : (tick w.dev).whole = true
           · simp only [hwh, if_true, List.length_nil, List.drop_zero, decodeGet_ok, List.nil_append]
             simp only [show (0 : Nat) = 202 ↔ False by decide, if_false, ne_eq, not_true_eq_false, he16,
-              ge_iff_le, Nat.le_refl, if_true]
+              ge_iff_le, Nat.le_refl, if_true, emptyAnswer_of_len v e (by omega), Bool.false_eq_true]
             refine Post.leaf rfl hwf hinv ?_ ?_ ?_ (selEntry_ne_py _ _ _)
             · intro e' nx h
               rw [selEntry_data _ _ _ _ h]
@@ -747,7 +762,10 @@ theorem entryLoop_frame (r rid : Nat) (hr1 : 1 ≤ r) (hr : r < 65536) (hrid : r
               rw [List.length_take, Nat.min_eq_left (by omega), take_take_drop]
             have hnl : (acc ++ (e.drop acc.length).take len).length = acc.length + len := by
               rw [hnew, List.length_take]; omega
-            simp only [show (0 : Nat) = 202 ↔ False by decide, if_false, ne_eq, not_true_eq_false, hnl]
+            have hE : emptyAnswer v ((e.drop acc.length).take len) = false :=
+              emptyAnswer_of_len v _ (by simp only [List.length_take, List.length_drop]; omega)
+            simp only [show (0 : Nat) = 202 ↔ False by decide, if_false, ne_eq, not_true_eq_false, hnl, hE,
+              Bool.false_eq_true]
             by_cases hdone : acc.length + len ≥ 16
             · have h16 : acc.length + len = 16 := by omega
               simp only [hnew, h16, ge_iff_le, Nat.le_refl, if_true]
@@ -1087,7 +1105,9 @@ theorem entryLoop_trace {σ} (cfg : Cfg) (v : Variant) (send : Send σ) (r rid :
         · exact one _
         · split
           · exact one _
-          · exact more _ _
+          · split
+            · exact one _
+            · exact more _ _
     | _ => exact one _
 
 /-- Whatever the peer does and whatever the constants are: a `get_and_clear_sel_entry` that returns
